@@ -84,7 +84,7 @@ def _sis(i):
     combos = [(m, o) for m in maps for o in ords]
     if _G["tier"] == "quick":
         combos = [combos[(i + k * 5) % len(combos)] for k in range(6)]
-    want = [[float(e[0]), e[1], e[2], e[3]] for e in reflog]
+    want = [[float(e[0]) - float(s.get("shift", 0)), e[1], e[2], e[3]] for e in reflog]
     for (mk, lab), (ok, norder, eorder) in combos:
         G = relabel.build_graph(n, norder, eorder, lab)
         back = {lab[u - 1]: u for u in nodes}
@@ -92,7 +92,8 @@ def _sis(i):
         try:
             sim = EoN.fast_nonMarkov_SIS(G, trans_time_fxn=lambda a, b, rd: tt(back[a], back[b], rd), rec_time_fxn=lambda a: rt(back[a]),
                                          initial_infecteds=_bare([lab[u - 1] for u in nodes if s["init"][u - 1] == "I"]),
-                                         tmin=float(s["tmin"]), tmax=float(s["tmax"]), return_full_data=True)
+                                         tmin=float(s["tmin"]) - float(s.get("shift", 0)), tmax=float(s["tmax"]) - float(s.get("shift", 0)),
+                                         return_full_data=True)
 
             class View(object):
                 def node_history(self, u):
